@@ -1687,6 +1687,296 @@ func (e *env) runKW(kind, kt string, nKeys int) {
 	}
 }
 
+// ---------- argument aliasing: every crypto-service call with its arguments as adjacent sub-slices of ONE buffer ----------
+
+// arena lays byte strings out adjacently, in the given order, in one backing array that has spare capacity behind the
+// last one; every part is handed out as buf[off:off+len], i.e. with len < cap and the following parts (or the spare
+// bytes) directly behind it.
+type arena struct {
+	buf, snap []byte
+	parts     [][]byte
+}
+
+func newArena(r *hx.Rng, parts [][]byte, order []int) *arena {
+	total := 0
+	for _, p := range parts {
+		total += len(p)
+	}
+
+	spare := 24 + r.Intn(64)
+	a := &arena{buf: make([]byte, total+spare), parts: make([][]byte, len(parts))}
+	off := 0
+
+	for _, i := range order {
+		copy(a.buf[off:], parts[i])
+		a.parts[i] = a.buf[off : off+len(parts[i])]
+		off += len(parts[i])
+	}
+
+	for i := off; i < len(a.buf); i++ {
+		a.buf[i] = byte(0xA0 + i%7)
+	}
+
+	a.snap = append([]byte{}, a.buf...)
+
+	return a
+}
+
+func (a *arena) intact() bool { return string(a.buf) == string(a.snap) }
+
+func permutations(n int) [][]int {
+	if n == 1 {
+		return [][]int{{0}}
+	}
+
+	var out [][]int
+
+	for _, p := range permutations(n - 1) {
+		for pos := 0; pos <= len(p); pos++ {
+			q := append(append(append([]int{}, p[:pos]...), n-1), p[pos:]...)
+			out = append(out, q)
+		}
+	}
+
+	return out
+}
+
+func exactCopies(parts [][]byte) [][]byte {
+	out := make([][]byte, len(parts))
+	for i, p := range parts {
+		out[i] = make([]byte, len(p))
+		copy(out[i], p)
+	}
+
+	return out
+}
+
+// aliasCheck runs call with separately allocated arguments, then twice with every adjacent layout of the same VALUES in
+// one buffer: the verdict must be the same and the caller's buffer (spare capacity included) must be unchanged.
+func (e *env) aliasCheck(r *hx.Rng, op, kt string, names []string, parts [][]byte, call func(args [][]byte) string) {
+	want := call(exactCopies(parts))
+
+	for _, order := range permutations(len(parts)) {
+		ar := newArena(r, parts, order)
+		layout := make([]string, len(order))
+
+		for i, o := range order {
+			layout[i] = names[o]
+		}
+
+		rec := &hx.Record{Kind: "alias", Oracle: "ok",
+			Case:  Case{Group: "alias", KT: kt, Variant: op + "/" + strings.Join(layout, "|")},
+			Class: fmt.Sprintf("alias/%s/%s/%s", op, kt, strings.Join(layout, "|")),
+			Dist:  []string{"group=alias", "op=" + op, "kt=" + kt},
+		}
+
+		for round := 1; round <= 2 && rec.Oracle == "ok"; round++ {
+			got := call(ar.parts)
+
+			switch {
+			case got != want:
+				rec.Oracle, rec.Sig = "fail", fmt.Sprintf("alias:%s:%s:result-depends-on-argument-layout", op, kt)
+				rec.Detail = fmt.Sprintf("%s with arguments laid out %s in one buffer, call %d: %.80s; with separately allocated arguments: %.80s",
+					op, strings.Join(layout, "|"), round, got, want)
+			case !ar.intact():
+				rec.Oracle, rec.Sig = "fail", fmt.Sprintf("alias:%s:%s:caller-buffer-modified", op, kt)
+				rec.Detail = fmt.Sprintf("%s with arguments laid out %s in one buffer modified the caller's memory (call %d)", op, strings.Join(layout, "|"), round)
+			}
+		}
+
+		rec.Observed = map[string]interface{}{"verdict": fmt.Sprintf("%.40s", want), "intact": ar.intact()}
+		e.tr.Put(rec)
+	}
+}
+
+func verdict(b []byte, err error) string {
+	if err != nil {
+		return "err"
+	}
+
+	return "ok:" + hex.EncodeToString(b)
+}
+
+func (e *env) runAlias(sigs, aeads, macs []int) {
+	a, b := &party{newKMS()}, &party{newKMS()}
+	r := e.rng.Fork(19000)
+
+	for _, i := range sigs {
+		kt := e.names[i]
+
+		sk, err := e.makeSigKey(a, b, kt, true)
+		if err != nil {
+			continue
+		}
+
+		msg := r.Bytes(1 + r.Intn(60))
+
+		sig, err := e.sign(kt, sk.kh, msg)
+		if err != nil {
+			continue
+		}
+
+		// Sign is randomised for ECDSA: the verdict is whether what it produced verifies
+		e.aliasCheck(r, "Sign", kt, []string{"msg"}, [][]byte{msg}, func(p [][]byte) string {
+			s2, e2 := e.sign(kt, sk.kh, p[0])
+			if e2 != nil {
+				return "err"
+			}
+
+			return fmt.Sprint("verifies=", e.verify(kt, sk.pubSame, s2, msg) == nil)
+		})
+
+		vh := sk.pubSame
+		if sk.pubImp != nil {
+			vh = sk.pubImp
+		}
+
+		for _, variant := range []string{"genuine", "altered"} {
+			sg := sig
+			if variant == "altered" {
+				sg = Alt{"sub", r.Intn(len(sig)), 3}.apply(sig)
+			}
+
+			e.aliasCheck(r, "Verify-"+variant, kt, []string{"sig", "msg"}, [][]byte{sg, msg}, func(p [][]byte) string {
+				return fmt.Sprint(e.verify(kt, vh, p[0], p[1]) == nil)
+			})
+
+			if _, ok := pkvVerify(kt, sk.pubRaw, msg, sg); ok {
+				_, pt := primaryInfo(sk.kh)
+				if pt == tinkpb.OutputPrefixType_RAW {
+					e.aliasCheck(r, "PublicKeyVerifier-"+variant, kt, []string{"sig", "msg"}, [][]byte{sg, msg}, func(p [][]byte) string {
+						verr, _ := pkvVerify(kt, sk.pubRaw, p[1], p[0])
+						return fmt.Sprint(verr == nil)
+					})
+				}
+			}
+		}
+	}
+
+	aeadNames := make([]string, 0, len(aeads))
+	for _, i := range aeads {
+		aeadNames = append(aeadNames, e.names[i])
+	}
+
+	for _, kt := range aeadNames {
+		for _, rot := range []int{0, 2} {
+			stages, _, err := rotations(a.kms, kt, rot)
+			if err != nil {
+				continue
+			}
+
+			kh := stages[len(stages)-1]
+			msg, aad := r.Bytes(1+r.Intn(80)), r.Bytes(1+r.Intn(30))
+			op := fmt.Sprintf("rot%d", rot)
+
+			e.aliasCheck(r, "Encrypt-"+op, kt, []string{"msg", "aad"}, [][]byte{msg, aad}, func(p [][]byte) string {
+				c, n, e2 := e.crypto.Encrypt(p[0], p[1], kh)
+				if e2 != nil {
+					return "err"
+				}
+
+				return verdict(e.crypto.Decrypt(c, aad, n, kh))
+			})
+
+			// ciphertext made under the FIRST stage, decrypted under the last one
+			ct, nonce, err := e.crypto.Encrypt(msg, aad, stages[0])
+			if err != nil {
+				continue
+			}
+
+			for _, variant := range []string{"genuine", "altered"} {
+				c2 := ct
+				if variant == "altered" {
+					c2 = Alt{"sub", r.Intn(len(ct)), 5}.apply(ct)
+				}
+
+				e.aliasCheck(r, "Decrypt-"+variant+"-"+op, kt, []string{"nonce", "aad", "cipher"}, [][]byte{nonce, aad, c2}, func(p [][]byte) string {
+					return verdict(e.crypto.Decrypt(p[2], p[1], p[0], kh))
+				})
+			}
+		}
+	}
+
+	for _, i := range macs {
+		kt := e.names[i]
+
+		stages, _, err := rotations(a.kms, kt, 1)
+		if err != nil {
+			continue
+		}
+
+		data := r.Bytes(1 + r.Intn(60))
+
+		tag, err := e.crypto.ComputeMAC(data, stages[0])
+		if err != nil {
+			continue
+		}
+
+		e.aliasCheck(r, "ComputeMAC", kt, []string{"data"}, [][]byte{data}, func(p [][]byte) string {
+			return verdict(e.crypto.ComputeMAC(p[0], stages[1]))
+		})
+
+		for _, variant := range []string{"genuine", "altered"} {
+			tg := tag
+			if variant == "altered" {
+				tg = Alt{"sub", r.Intn(len(tag)), 9}.apply(tag)
+			}
+
+			e.aliasCheck(r, "VerifyMAC-"+variant, kt, []string{"mac", "data"}, [][]byte{tg, data}, func(p [][]byte) string {
+				return fmt.Sprint(e.crypto.VerifyMAC(p[0], p[1], stages[1]) == nil)
+			})
+		}
+	}
+
+	for _, kt := range []string{kms.NISTP256ECDHKW, kms.X25519ECDHKW} {
+		if e.idx(kt) < 0 {
+			continue
+		}
+
+		kid, _, err := a.kms.Create(kms.KeyType(kt))
+		if err != nil {
+			continue
+		}
+
+		pb, _, err := a.kms.ExportPubKeyBytes(kid)
+		if err != nil {
+			continue
+		}
+
+		pk := &spicrypto.PublicKey{}
+		if json.Unmarshal(pb, pk) != nil {
+			continue
+		}
+
+		kh, _ := a.kms.Get(kid)
+		cek, apu, apv := r.Bytes(32), r.Bytes(8), r.Bytes(8)
+
+		e.aliasCheck(r, "WrapKey", kt, []string{"cek", "apu", "apv"}, [][]byte{cek, apu, apv}, func(p [][]byte) string {
+			wk, e2 := e.crypto.WrapKey(p[0], p[1], p[2], pk)
+			if e2 != nil {
+				return "err"
+			}
+
+			w2 := *wk
+			w2.APU, w2.APV = apu, apv
+
+			return verdict(e.crypto.UnwrapKey(&w2, kh))
+		})
+
+		wk, err := e.crypto.WrapKey(cek, apu, apv, pk)
+		if err != nil {
+			continue
+		}
+
+		e.aliasCheck(r, "UnwrapKey", kt, []string{"encryptedcek", "apu", "apv"}, [][]byte{wk.EncryptedCEK, apu, apv}, func(p [][]byte) string {
+			w2 := *wk
+			w2.EncryptedCEK, w2.APU, w2.APV = p[0], p[1], p[2]
+
+			return verdict(e.crypto.UnwrapKey(&w2, kh))
+		})
+	}
+}
+
 // ---------- driver ----------
 
 func (e *env) kinds() (sigs, aeads, macs []int) {
@@ -1746,6 +2036,9 @@ func (e *env) runGroup(kind string, c Case) {
 		e.runMac(kind, c.KT, 2)
 	case "kw":
 		e.runKW(kind, c.KT, 1)
+	case "alias":
+		sg, ae, mc := e.kinds()
+		e.runAlias(sg, ae, mc)
 	case "sigrot":
 		e.runSigRot(kind, e.idx(c.KT), c.KT)
 	case "bbs":
@@ -1879,4 +2172,6 @@ func main() {
 			e.runKW("kw", n, nMac)
 		}
 	}
+
+	e.runAlias(sigs, aeads, macs)
 }
